@@ -44,7 +44,7 @@ Qed.
 Lemma decode_message_gen_hash o hr c m :
   decode_message_gen o hr c = Ok m -> hr = Ok (m_hash m) /\ is_library_cell c = false.
 Proof.
-  unfold decode_message_gen. intros E. inv_ok E.
+  unfold decode_message_gen, decode_message_body. intros E. inv_ok E.
   repeat match goal with p : (_ * _)%type |- _ => destruct p end.
   injection E as <-. auto.
 Qed.
